@@ -557,8 +557,9 @@ package hclsyntax
 // parseIf / parseFor (the first and last part of each branch) is in range, for every token
 // sequence. Not covered here (assumed away, "nosafety nil panic"): nil tokens / nil expressions
 // inside tokens, and the two "should never happen" panics, which depend on how parseTemplateParts
-// builds the token list. The precondition is assumed at parseRoot: parseTemplateParts always
-// appends the end token.
+// builds the token list. The precondition of parseRoot at its one call site (parseTemplateInner:
+// parseTemplateParts always appends the end token, the two rewriting passes keep it last) is an
+// open obligation, not a proved one.
 // verif:pred tpWF(p *templateParser) = p != nil && 0 <= p.pos && p.pos < len(p.Tokens) && typeis(p.Tokens[len(p.Tokens) - 1], ptr(templateEndToken))
 // verif:func (*templateParser).Peek
 //@ nosafety nil
@@ -586,6 +587,5 @@ package hclsyntax
 //@ loop 1 invariant tpWF(p)
 // verif:func (*templateParser).parseRoot
 //@ nosafety nil
-//@ assumepre
 //@ requires tpWF(p)
 //@ loop 1 invariant tpWF(p)
